@@ -56,6 +56,12 @@ def run_property(prop: str, tier: str, repo=None, quiet: bool = False, write_evi
                 except Exception as e:  # internal error of the checker: never a verdict
                     tb = traceback.format_exc().strip().splitlines()
                     ctx.error(f"internal error in {rule_fn.__name__}: {e!r} @ {tb[-3].strip() if len(tb) >= 3 else ''}")
+            if tier == "thorough":
+                try:
+                    from .sweep import sweep_property
+                    sweep_property(ctx)
+                except Exception as e:
+                    ctx.error(f"sensitivity sweep failed: {e!r}")
             if tier == "thorough" and hasattr(mod, "THOROUGH"):
                 for rule_fn in mod.THOROUGH:
                     try:
